@@ -83,6 +83,93 @@ class C16Geometry1D(Harness):
 
 
 @register
+class C16Evolving1D(Harness):
+    prop = "C16"
+    group = "evolving1d"
+    bounds_doc = "adaptive fixed-width 1D histogram (width 1 or 0.5) starting with 0 or 1 bins whose geometry (bins, edges, widths, centers, densities, total_width) is read, then N<=2 symbolic values in [-3, 3) are entered by fill / fill_n (bin range grows), geometry read again after each step: all geometry views agree with each other and with the contents"
+
+    def instances(self, tier):
+        for n0 in (0, 1):
+            for way in ("fill", "fill_n"):
+                for N in ((1, 2) if tier != "quick" else (1,) if n0 else (1, 2)):
+                    for w in ((1.0,) if tier == "quick" else (1.0, 0.5)):
+                        for touch in (("bins",), ("edges",), ("bins", "edges")):
+                            if tier == "quick" and touch == ("edges",) and N == 2:
+                                continue
+                            yield f"ev-n{n0}-{way}-N{N}-w{w}-t{'+'.join(touch)}", dict(n0=n0, way=way, N=N, w=w, touch=list(touch))
+
+    def declare(self, cx, p):
+        x = {"v": [cx.pyfloat(f"v{i}") for i in range(p["N"])]}
+        if cx.sym:
+            cx.assume(*[z3.And(cx.t(v) >= -3, cx.t(v) < 3) for v in x["v"]])
+        return x
+
+    @staticmethod
+    def _geom(h, touch):
+        d = {}
+        if "bins" in touch:
+            d.update(bins=_tolist(h.bins), widths=_tolist(h.bin_widths), centers=_tolist(h.bin_centers), left=_tolist(h.bin_left_edges), right=_tolist(h.bin_right_edges),
+                     total_width=h.total_width, dens=_tolist(h.densities), sizes=_tolist(h.bin_sizes))
+        if "edges" in touch:
+            d.update(edges=_tolist(h.edges))
+        d.update(freq=_tolist(h.frequencies), cum=_tolist(h.cumulative_frequencies), total=h.total, bin_count=h.bin_count)
+        return d
+
+    def drive(self, E, p, x):
+        np = E.np
+        H1 = E.mod("physt.histogram1d").Histogram1D
+        FWB = E.mod("physt.binnings").FixedWidthBinning
+        if p["n0"] == 0:
+            h = H1(FWB(bin_width=p["w"], bin_count=0, adaptive=True))
+        else:
+            h = H1(FWB(bin_width=p["w"], bin_count=1, bin_times_min=0, adaptive=True), np.asarray([0]))
+        steps = [self._geom(h, p["touch"])]
+        for v in x["v"]:
+            r = E.attempt(h.fill, v) if p["way"] == "fill" else E.attempt(h.fill_n, np.asarray([v], dtype=float))
+            if isinstance(r, Raised):
+                return {"steps": steps, "op_raised": r}
+            steps.append(self._geom(h, p["touch"]))
+        steps.append(self._geom(h, ["bins", "edges"]))
+        return {"steps": steps}
+
+    def oracle(self, cx, p, x, obs):
+        yield "no_exception", obs.get("raised") is None and obs.get("op_raised") is None
+        if obs.get("raised") is not None or obs.get("op_raised") is not None:
+            return
+        w = z3.RealVal(str(p["w"]))
+        vs = [cx.t(v) for v in x["v"]]
+        for s, g in enumerate(obs["steps"]):
+            n = len(g["freq"])
+            entered = vs[: min(s, len(vs))]
+            ok_shape = g["bin_count"] == n and len(g["cum"]) == n and all(len(g[k]) == n for k in ("bins", "widths", "centers", "left", "right", "dens", "sizes") if k in g) \
+                and ("edges" not in g or n == 0 or len(g["edges"]) == n + 1)
+            yield f"shapes_agree[{s}]", bool(ok_shape)
+            if not ok_shape:
+                continue
+            yield f"total[{s}]", z3.And(cx.eq(g["total"], z3.IntVal(len(entered))), zsum([cx.t(f) for f in g["freq"]] + [z3.IntVal(0)]) == len(entered))
+            if "bins" in g:
+                B = g["bins"]
+                conj = []
+                for j in range(n):
+                    l, r = cx.t(B[j][0]), cx.t(B[j][1])
+                    conj += [r - l == w, cx.eq(g["left"][j], l), cx.eq(g["right"][j], r), cx.eq(g["widths"][j], w), cx.eq(g["sizes"][j], w), cx.eq(g["centers"][j], (l + r) / 2),
+                             cx.t(g["dens"][j]) * w == cx.t(g["freq"][j]), cx.eq(g["cum"][j], zsum(cx.t(f) for f in g["freq"][: j + 1]))]
+                    if j:
+                        conj.append(l == cx.t(B[j - 1][1]))
+                    # contents: the number of entered values lying in this bin
+                    conj.append(cx.eq(g["freq"][j], zsum(z3.If(z3.And(l <= v, v < r), 1, 0) for v in entered)))
+                conj.append(cx.eq(g["total_width"], n * w))
+                yield f"geometry_consistent[{s}]", z3.And(conj) if conj else z3.BoolVal(True)
+            if "edges" in g and n:
+                Ed = [cx.t(e) for e in g["edges"]]
+                conj = [Ed[j + 1] - Ed[j] == w for j in range(n)]
+                conj += [cx.eq(g["freq"][j], zsum(z3.If(z3.And(Ed[j] <= v, v < Ed[j + 1]), 1, 0) for v in entered)) for j in range(n)]
+                if "bins" in g:
+                    conj += [z3.And(Ed[j] == cx.t(g["bins"][j][0]), Ed[j + 1] == cx.t(g["bins"][j][1])) for j in range(n)]
+                yield f"edges_consistent[{s}]", z3.And(conj)
+
+
+@register
 class C16GeometryND(Harness):
     prop = "C16"
     group = "geomnd"
